@@ -1231,6 +1231,19 @@ def deadline_scenarios(rng, thorough=False):
             sc = Scenario(ops, "deadline:connect:%s:%s" % ("".join(e[0] for e in eps), "+".join(map(str, delta))))
             sc.expect = (5000, True, ("X",), mark)
             S.append(sc)
+    # TCP connect, second candidate after a failure that took some time: the 5 s start when that candidate is tried
+    for eps in (["late", "hang"], ["late", "hang", "accept"], ["refuse", "late", "hang"]):
+        for pre_ms in (3000, 4999):
+            for delta in ((4999, 1, 1, 1), (5000, 1, 1), (5001, 1), (2001, 2998, 1, 1, 1)):
+                ops = base_ops() + [("connect", "client", eps)]
+                ops += [("clock", pre_ms), ("run", None), ("is",)]
+                mark = len(ops)
+                for dt in delta:
+                    ops += [("clock", dt), ("run", None), ("is",)]
+                ops += [("release",)]
+                sc = Scenario(ops, "deadline:connect-next:%s:%d:%s" % ("".join(e[0] for e in eps), pre_ms, "+".join(map(str, delta))))
+                sc.expect = (5000, True, ("X",), mark)
+                S.append(sc)
     # graceful close: 2 s
     for delta in ((1999, 1, 1), (2000, 1), (2001, 1), (1000, 999, 1, 1)):
         ops = base_ops() + [("connect", "client", ["accept"]), ("run", None)] + runs(*happy_client(tls=False, sm=False)) + [("is",), ("disc",), ("run", None)]
@@ -1241,6 +1254,18 @@ def deadline_scenarios(rng, thorough=False):
         sc = Scenario(ops, "deadline:close:%s" % "+".join(map(str, delta)))
         sc.expect = (2000, "same", ("E:disconnect",), mark)
         S.append(sc)
+    # a second disconnect request while the 2 s wait is pending does not extend it
+    for first in (1500, 1999):
+        for delta in ((1999 - first, 1, 1), (2000 - first, 1), (2001 - first, 1), (3000,)):
+            ops = base_ops() + [("connect", "client", ["accept"]), ("run", None)] + runs(*happy_client(tls=False, sm=False)) + [("is",), ("disc",), ("run", None)]
+            mark = len(ops)
+            ops += [("clock", first), ("disc",), ("run", None), ("is",)]
+            for dt in delta:
+                ops += [("clock", dt), ("run", None), ("is",)]
+            ops += [("release",)]
+            sc = Scenario(ops, "deadline:close-twice:%d:%s" % (first, "+".join(map(str, delta))))
+            sc.expect = (2000, "same", ("E:disconnect",), mark)
+            S.append(sc)
     return S
 
 
